@@ -896,3 +896,6 @@ seed("C17", "C17-c", "C17.R7")
 seed("C18", "C18-c", "C18.R2")
 seed("C19", "C19-c", "C19.R2")
 seed("C20", "C20-c", "C20.R6")
+seed("C10", "C10-c", "C10.R2")
+seed("C03", "C03-c", "C03.R7")
+seed("C07", "C07-c", "C07.R6")
